@@ -37,22 +37,74 @@ def bare(i):
     return i.rsplit(".", 1)[-1]
 
 
-def observe(mage, spec):
-    files = c07gen.render(spec)
-    d = mage.project(files, name=spec["name"])
+def _runs(mage, d, words, exe=None):
+    r2 = mage.run(d, words, exe=exe)
+    cl = projlib.calls(r2["out"])
+    if r2["rc"] == 0 and len(cl) == len(words):
+        return [[w, c[0]] for w, c in zip(words, cl)]
+    out = []
+    for w in words:
+        r3 = mage.run(d, [w], exe=exe)
+        cl = projlib.calls(r3["out"])
+        out.append([w, cl[0][0] if len(cl) == 1 and r3["rc"] == 0 else ("" if not cl else "+".join(c[0] for c in cl))])
+    return out
+
+
+def observe_state(mage, d, spec):
+    """one state of a project directory: `mage -l`, every runnable name when accepted; for the states of a
+    history also `mage -h <target>`, `mage <name>` when rejected, and `mage -compile`"""
     r = mage.run(d, ["-l"])
     o = {"rc": r["rc"], "class": projlib.stderr_class(r["err"]), "groups": parse_msg(r["err"]), "stderr": r["err"][-1500:], "runs": []}
+    cmds = spec.get("cmds", [])
     if r["rc"] == 0 and spec["words"]:
-        r2 = mage.run(d, spec["words"])
-        cl = projlib.calls(r2["out"])
-        if r2["rc"] == 0 and len(cl) == len(spec["words"]):
-            o["runs"] = [[w, c[0]] for w, c in zip(spec["words"], cl)]
-        else:
-            for w in spec["words"]:
-                r3 = mage.run(d, [w])
-                cl = projlib.calls(r3["out"])
-                o["runs"].append([w, cl[0][0] if len(cl) == 1 and r3["rc"] == 0 else ("" if not cl else "+".join(c[0] for c in cl))])
+        o["runs"] = _runs(mage, d, spec["words"])
+    defs = c07gen.all_defs(spec)
+    tnames = [c07gen.runnable(defs[i], a) for i, a in c07gen.exposures(spec)]
+    if "h" in cmds and tnames:
+        rh = mage.run(d, ["-h", tnames[0].lower()])
+        o["help"] = {"word": tnames[0].lower(), "rc": rh["rc"], "class": projlib.stderr_class(rh["err"]), "stderr": rh["err"][-400:]}
+    if "run" in cmds and r["rc"] != 0 and spec["words"]:
+        rr = mage.run(d, spec["words"][:1])
+        o["run1"] = {"word": spec["words"][0], "rc": rr["rc"], "class": projlib.stderr_class(rr["err"]), "calls": [c[0] for c in projlib.calls(rr["out"])], "stderr": rr["err"][-400:]}
+    if "compiled" in cmds:
+        exe = os.path.join(d, "compiled_magefile")
+        if os.path.exists(exe):
+            os.remove(exe)
+        rc = mage.run(d, ["-compile", exe])
+        o["compiled"] = {"rc": rc["rc"], "class": projlib.stderr_class(rc["err"]), "stderr": rc["err"][-400:], "runs": []}
+        if rc["rc"] == 0 and os.path.exists(exe) and spec["words"]:
+            o["compiled"]["runs"] = _runs(mage, d, spec["words"], exe=exe)
+        if os.path.exists(exe):
+            os.remove(exe)
     return o
+
+
+def rewrite(d, files):
+    """replace the sources of a project directory (go.mod and the probe package stay)"""
+    for root, dirs, fs in os.walk(d):
+        if os.path.relpath(root, d).split(os.sep)[0] == "probe":
+            continue
+        for f in fs:
+            if f.endswith(".go"):
+                os.remove(os.path.join(root, f))
+    for rel, text in files.items():
+        p = os.path.join(d, rel)
+        os.makedirs(os.path.dirname(p), exist_ok=True)
+        with open(p, "w") as f:
+            f.write(text)
+
+
+def observe_history(mage, states):
+    """the states of one project directory, in order, all with the same cache"""
+    d, out = None, []
+    for spec in states:
+        files = c07gen.render(spec)
+        if d is None:
+            d = mage.project(files, name=spec["name"])
+        else:
+            rewrite(d, files)
+        out.append(observe_state(mage, d, spec))
+    return out
 
 
 # ---------------------------------------------------------------- the oracle (the property sentence)
@@ -134,6 +186,40 @@ def oracle(spec, o):
     return None
 
 
+def oracle_commands(spec, o):
+    """-h, a run and -compile in a state are judged like -l: refused with the diagnosis iff two names collide"""
+    defs = c07gen.all_defs(spec)
+    names = [(c07gen.runnable(defs[i], a).lower(), ("def", i)) for i, a in c07gen.exposures(spec)]
+    names += [(a["key"].lower(), ("alias", a["key"])) for a in spec["aliases"]]
+    by = {}
+    for n, what in names:
+        by.setdefault(n, set()).add(what)
+    collide = any(len(v) > 1 for v in by.values())
+    if not collide and len(names) != len(by):
+        return None                                   # only one definition imported twice: undecided
+    for what, key in (("mage -h %s", "help"), ("mage %s", "run1"), ("mage -compile", "compiled")):
+        r = o.get(key)
+        if r is None:
+            continue
+        cmd = what % r["word"] if "%s" in what else what
+        if collide and (r["rc"] != 1 or r["class"] != "dupe"):
+            return "two runnable names collide, yet `%s` exited %d (%s) instead of refusing with the duplicate diagnosis: %s" % (cmd, r["rc"], r["class"], r["stderr"][-200:].strip())
+        if not collide and r["rc"] != 0:
+            return "no two runnable names are equal ignoring case, yet `%s` exited %d (%s): %s" % (cmd, r["rc"], r["class"], r["stderr"][-200:].strip())
+    if not collide and "compiled" in o:
+        own = {}
+        for i, a in c07gen.exposures(spec):
+            own[c07gen.runnable(defs[i], a).lower()] = i
+        for a in spec["aliases"]:
+            own[a["key"].lower()] = a["ref"]
+        for w, ran in o["compiled"]["runs"]:
+            if ran != own.get(w.lower(), ""):
+                return "the compiled binary ran %s for %s, its own definition is %s" % (ran or "nothing", w, own.get(w.lower()) or "none")
+        if len(o["compiled"]["runs"]) != len(spec["words"]):
+            return "the compiled binary did not run every word"
+    return None
+
+
 # ---------------------------------------------------------------- Coq terms
 def pkg_term(spec):
     defs = c07gen.all_defs(spec)
@@ -171,12 +257,17 @@ def run(ctx):
     mage = projlib.Mage(ctx)
     rng = ctx.rng
     if ctx.replay and ctx.replay.get("case"):
-        specs = [ctx.replay["case"]["spec"]]
-        specs[0]["name"] = "replay"
+        c = ctx.replay["case"]
+        hists = [c["history"]] if "history" in c else [[c["spec"]]]
+        for st in hists[0]:
+            st["name"] = "replay"
     else:
-        specs = c07gen.generate(rng, reps=3 if ctx.quick else 50, soups=32 if ctx.quick else 800)
-    ctx.log("projects:", len(specs))
-    obs = pmap(lambda s: observe(mage, s), specs)
+        hists = c07gen.generate(rng, reps=3 if ctx.quick else 40, soups=32 if ctx.quick else 700, hists=2 if ctx.quick else 25)
+    ctx.log("projects:", len(hists), "states:", sum(len(h) for h in hists))
+    hobs = pmap(lambda h: observe_history(mage, h), hists)
+    specs = [st for h in hists for st in h]
+    obs = [o for ho in hobs for o in ho]
+    prefix = [h[:k + 1] for h in hists for k in range(len(h))]          # the history up to each state (the replay)
     items, seen = [], set()
     nontriv = 0
     matrix, outcome, msgs = {}, {"accepted": 0, "rejected": 0, "other": 0}, {"case": 0, "alias": 0, "multi": 0}
@@ -195,10 +286,13 @@ def run(ctx):
         else:
             outcome["other"] += 1
         words_run += len(o["runs"])
-        bad = oracle(spec, o)
+        bad = oracle(spec, o) or oracle_commands(spec, o)
         if bad:
-            ctx.violation({"kind": "oracle", "clause": bad, "collision_kind": kind}, case={"spec": spec, "observed": o})
-        h = case_hash([spec["locals"], spec["imports"], spec["aliases"], spec["words"]])
+            hist = prefix[len(items)]
+            if len(hist) > 1:
+                bad = "state %d of a project directory edited in place (same cache): %s" % (len(hist) - 1, bad)
+            ctx.violation({"kind": "oracle", "clause": bad, "collision_kind": kind}, case={"history": hist, "spec": spec, "observed": o})
+        h = case_hash([spec["locals"], spec["imports"], spec["aliases"], spec["words"], spec.get("decoys"), spec.get("step")])
         if h not in seen:
             seen.add(h)
             if len(c07gen.exposures(spec)) + len(spec["aliases"]) >= 2 and (o["rc"] != 0 or o["runs"]):
@@ -217,12 +311,16 @@ def run(ctx):
         for idx, body in mism[:3]:
             ctx.violation({"kind": "model-vs-implementation", "correspondence": "Run/eval_C07.mismatches", "model_says": body[:400],
                            "implementation": {k: obs[idx][k] for k in ("rc", "class", "groups", "runs")}},
-                          case={"spec": specs[idx], "observed": obs[idx]}, found_input=False)
+                          case={"history": prefix[idx], "spec": specs[idx], "observed": obs[idx]}, found_input=False)
     cov = ctx.coverage
     cov["evaluations"] = len(specs)
     cov["distinct_nontrivial"] = nontriv
-    cov["rule"] = ("one generated Go project per case (own module, imported packages inside it); distinct by hash of the abstract package + words; "
+    cov["rule"] = ("one generated Go project (or one state of a project directory edited in place) per case, own module, imported packages inside it; "
+                   "distinct by hash of the abstract package + words + look-alike non-targets; "
                    "non-trivial = at least two runnable names and (rejected, or at least one name run)")
+    cov["histories"] = sum(1 for h in hists if len(h) > 1)
+    cov["history_states"] = sum(len(h) for h in hists if len(h) > 1)
+    cov["decoys_rendered"] = sum(len(sp.get("decoys", [])) + sum(len(i.get("decoys", [])) for i in sp["imports"]) for sp in specs)
     cov["matrix"] = matrix
     cov["outcomes"] = outcome
     cov["messages_seen"] = msgs
